@@ -1,2 +1,548 @@
-// Package c04: (not built yet)
+// Package c04: expression and template evaluation is total (never panics, always returns in bounded
+// time and memory; failures are error values and error events).
 package c04
+
+import (
+	"encoding/json"
+	"fmt"
+	"os"
+	"sort"
+	"strings"
+	"time"
+
+	"verif/mc"
+)
+
+// confirmed is a runaway class confirmed at the full limit in this group.
+type confirmed struct {
+	sig Sig
+	key string
+}
+
+// confRes is the result of running one case alone under the full limit.
+type confRes struct {
+	done   bool
+	fail   *failure
+	err    error
+	deltas []*delta
+	used   time.Duration
+}
+
+// provisional is a case that exceeded the short limit and is being re-run alone, in the background,
+// under the full limit. Until its verdict is known, later cases of the same signature class that also
+// exceed the short limit are parked in cut: if the class is confirmed they are counted under its key,
+// otherwise they are re-run.
+type provisional struct {
+	sig Sig
+	idx int
+	cs  Case
+	cut []int
+	res chan confRes
+}
+
+// orchestrator runs this shard's groups through isolated children.
+type orchestrator struct {
+	c     *mc.Ctx
+	lim   limits
+	child *child
+	sem   chan struct{} // bounds the background confirmations
+}
+
+func (o *orchestrator) ensureChild() error {
+	if o.child != nil {
+		return nil
+	}
+	ch, err := startChild(o.c.Tier)
+	if err != nil {
+		return err
+	}
+	o.child = ch
+	o.c.Inc("child_processes_started")
+	return nil
+}
+
+func (o *orchestrator) merge(d *delta) {
+	c := o.c
+	for k, v := range d.Counters {
+		c.Add(k, v)
+	}
+	for k, v := range d.Outcomes {
+		addOutcome(c, k, v)
+	}
+	for k, v := range d.Facts {
+		addFact(c, k, v)
+	}
+	for k, v := range d.Maxes {
+		c.Max(k, v)
+	}
+	for _, v := range d.Viol {
+		for i := int64(0); i < v.Count; i++ {
+			c.Violation(v.Key, v.What, map[string]any{"risky": mc.JSON(v.Case)})
+		}
+	}
+	for _, s := range d.Samples {
+		c.Sample(s)
+	}
+}
+
+// addOutcome / addFact add n occurrences (mc.Ctx only exposes increments).
+func addOutcome(c *mc.Ctx, k string, n int64) {
+	for ; n > 0; n-- {
+		c.Outcome(k)
+	}
+}
+
+func addFact(c *mc.Ctx, k string, n int64) {
+	for ; n > 0; n-- {
+		c.Fact(k)
+	}
+}
+
+// runawayKeyName is the function/operator part of a runaway key.
+func runawayKeyName(g Group) string {
+	switch g.Kind {
+	case "call":
+		return g.Name
+	case "form":
+		return keyName("form", g.Name)
+	case "xexp":
+		return "json-number"
+	case "tokens":
+		return "expr"
+	case "stress":
+		return "stress"
+	}
+	return "template"
+}
+
+// confirmCase runs one case alone in a fresh child under the given CPU limit.
+func confirmCase(tier string, g Group, cs Case, limit time.Duration) confRes {
+	ch, err := startChild(tier)
+	if err != nil {
+		return confRes{err: err}
+	}
+	var r confRes
+	r.done, r.fail, r.used, r.err = ch.driveCPU(&request{Group: g, One: &cs}, func(d *delta) { r.deltas = append(r.deltas, d) }, func(int) time.Duration { return limit })
+	if r.done {
+		ch.close()
+	} else {
+		ch.discard()
+	}
+	return r
+}
+
+func (o *orchestrator) runGroup(g Group) error {
+	c := o.c
+	size := g.Size(c.Tier)
+	dec := newDecoder(g, c.Tier)
+	positional := g.Positional()
+	var conf []confirmed
+	unpredictedKey := "runaway:" + runawayKeyName(g) + ":unpredicted"
+
+	coveringConf := func(sig Sig) *confirmed {
+		for i := range conf {
+			if conf[i].sig.Covers(sig, positional) {
+				return &conf[i]
+			}
+		}
+		return nil
+	}
+	recordRunaway := func(key string, cs Case, fail *failure, first bool) {
+		replay := map[string]any{"risky": mc.JSON(cs)}
+		c.Inc("evaluations")
+		c.Inc("distinct_nontrivial")
+		if g.Danger {
+			c.Inc("cases_predicted_dangerous")
+		} else {
+			c.Inc("cases_batch")
+		}
+		if !first {
+			c.Inc("runaway_cases_in_an_already_confirmed_class")
+			c.Violation(key, "", replay)
+			return
+		}
+		what := "hang"
+		if fail.kind == "out-of-memory" {
+			what = fmt.Sprintf("exhausted the %d GiB memory cap (crash of the host)", MemCapBytes>>30)
+			c.Outcome("runaway:out-of-memory")
+		} else {
+			c.Outcome("runaway:cpu-limit")
+		}
+		c.Inc("runaway_cases_confirmed_at_the_full_limit")
+		c.Violation(key, fmt.Sprintf("evaluation does not return in bounded time/memory: %s\ncase: %s\n%s", what, mc.JSON(cs), trimTo(fail.detail, 1200)), replay)
+	}
+	recordFatal := func(cs Case, fail *failure) {
+		c.Inc("evaluations")
+		c.Inc("distinct_nontrivial")
+		c.Outcome("fatal:" + fail.kind)
+		c.Inc("fatal_cases")
+		first := fail.detail
+		if i := strings.Index(first, "\n"); i >= 0 {
+			first = first[:i]
+		}
+		c.Violation("fatal:"+runawayKeyName(g)+":"+first, fmt.Sprintf("evaluation killed the process (%s)\ncase: %s\n%s", fail.kind, mc.JSON(cs), trimTo(fail.detail, 1500)), map[string]any{"risky": mc.JSON(cs)})
+	}
+
+	var only []int // nil: the whole group; otherwise the indices to (re-)run in this pass
+	for pass := 0; ; pass++ {
+		var provs []*provisional
+		emptyProvs := 0
+		coveringProv := func(sig Sig) *provisional {
+			for _, p := range provs {
+				if p.sig.Covers(sig, positional) {
+					return p
+				}
+			}
+			if sig.Empty() && emptyProvs >= 2 {
+				// unpredicted slow cases: at most two are confirmed at a time per group
+				for i := len(provs) - 1; i >= 0; i-- {
+					if provs[i].sig.Empty() {
+						return provs[i]
+					}
+				}
+			}
+			return nil
+		}
+		from, upto := 0, -1
+		var skip []int
+		remaining := only
+		harnessFailures := 0
+		for {
+			if only == nil && from >= size {
+				break
+			}
+			if only != nil && len(remaining) == 0 {
+				break
+			}
+			if err := o.ensureChild(); err != nil {
+				return err
+			}
+			req := &request{Group: g, From: from, Skip: skip, Only: remaining, WantSample: c.WantSample()}
+			cpuBefore := o.child.cpu()
+			cpuKey := "cpu_ms:" + g.Kind
+			if g.Danger {
+				cpuKey += ":dangerous"
+			}
+			done, fail, err := o.child.drive(req, func(d *delta) {
+				o.merge(d)
+				if d.Upto > upto {
+					upto = d.Upto
+				}
+			}, func(int) time.Duration { return o.lim.short })
+			if used := o.child.cpu() - cpuBefore; used > 0 {
+				c.Add(cpuKey, used.Milliseconds())
+			} else if fail != nil {
+				c.Add("cpu_ms:cases_cut_at_the_short_limit", fail.cpu.Milliseconds())
+			}
+			if done {
+				break
+			}
+			o.child.discard()
+			o.child = nil
+			if err != nil {
+				harnessFailures++
+				if harnessFailures > 3 {
+					return err
+				}
+			} else {
+				dc := dec.at(fail.idx)
+				cs := dec.toCase(dc)
+				sig := append(Sig{}, dc.sig...)
+				switch {
+				case fail.kind != "cpu-limit" && fail.kind != "out-of-memory":
+					recordFatal(cs, fail)
+				case coveringConf(sig) != nil:
+					recordRunaway(coveringConf(sig).key, cs, fail, false)
+				case coveringProv(sig) != nil:
+					p := coveringProv(sig)
+					p.cut = append(p.cut, fail.idx)
+				default:
+					// exceeded the short limit (or died) and no known class explains it: re-run it alone
+					// under the full limit in the background and carry on
+					p := &provisional{sig: sig, idx: fail.idx, cs: cs, res: make(chan confRes, 1)}
+					provs = append(provs, p)
+					if sig.Empty() {
+						emptyProvs++
+					}
+					c.Inc("cases_rerun_alone_under_the_full_limit")
+					go func() {
+						o.sem <- struct{}{}
+						r := confirmCase(c.Tier, g, cs, o.lim.full)
+						<-o.sem
+						p.res <- r
+					}()
+				}
+				skip = append(skip, fail.idx)
+			}
+			from = upto + 1
+			if only != nil {
+				var rest []int
+				for _, i := range remaining {
+					if i > upto && (fail == nil || i != fail.idx) {
+						rest = append(rest, i)
+					}
+				}
+				remaining = rest
+			}
+		}
+		// verdicts of the cases re-run alone
+		var rerun []int
+		for _, p := range provs {
+			r := <-p.res
+			switch {
+			case r.err != nil:
+				return fmt.Errorf("confirming %s: %w", mc.JSON(p.cs), r.err)
+			case r.done:
+				for _, d := range r.deltas {
+					o.merge(d)
+				}
+				c.Inc("slow_cases_that_completed_under_the_full_limit")
+				c.Add("cpu_ms:reruns_under_the_full_limit", r.used.Milliseconds())
+				c.Max("slowest_completed_case_cpu_ms", r.used.Milliseconds())
+				if r.used > 2*time.Second {
+					c.Note(fmt.Sprintf("slow case completed after %.1f s of CPU: %s", r.used.Seconds(), trimTo(mc.JSON(p.cs), 300)))
+				}
+				rerun = append(rerun, p.cut...)
+			case r.fail.kind == "cpu-limit" || r.fail.kind == "out-of-memory":
+				key := unpredictedKey
+				if !p.sig.Empty() {
+					if cv := coveringConf(p.sig); cv != nil {
+						key = cv.key // a sub-signature was confirmed meanwhile
+					} else {
+						key = "runaway:" + runawayKeyName(g) + ":" + p.sig.String(positional)
+						conf = append(conf, confirmed{sig: p.sig, key: key})
+					}
+				}
+				recordRunaway(key, p.cs, r.fail, true)
+				c.Add("cpu_ms:reruns_under_the_full_limit", r.fail.cpu.Milliseconds())
+				for _, i := range p.cut {
+					recordRunaway(key, dec.toCase(dec.at(i)), r.fail, false)
+				}
+			default:
+				recordFatal(p.cs, r.fail)
+				rerun = append(rerun, p.cut...)
+			}
+		}
+		if len(rerun) == 0 {
+			return nil
+		}
+		if pass > 20 {
+			return fmt.Errorf("group %s does not settle after %d passes", g.ID(), pass)
+		}
+		sort.Ints(rerun)
+		only = rerun
+	}
+}
+
+func run(c *mc.Ctx) {
+	gs := Groups(c.Tier)
+	assign := Assign(gs, c.Tier, c.NShards, c.Seed)
+	shard := c.Shard
+	if c.NShards <= 1 {
+		shard = 0
+	}
+	o := &orchestrator{c: c, lim: limitsOf(c.Tier), sem: make(chan struct{}, 3)}
+	defer func() { o.child.close() }()
+	for n, gi := range assign[shard] {
+		if c.Expired() {
+			c.Cap(fmt.Sprintf("time budget reached; groups are visited in a fixed order and every group before the cap was enumerated completely (%d of this shard's %d groups done)", n, len(assign[shard])))
+			break
+		}
+		g := gs[gi]
+		if err := o.runGroup(g); err != nil {
+			c.Violation("harness:"+g.Kind, "harness error in group "+g.ID()+": "+err.Error(), map[string]any{})
+			return
+		}
+		c.Inc("groups")
+		c.Fact("group:" + g.Kind)
+	}
+}
+
+// expectedCounts computes, from the registries and the tier's bounds, how many calls every function
+// and form must have received and how many templates must have been evaluated.
+func expectedCounts(tier string) (perFn map[string]int64, templates int64) {
+	perFn = map[string]int64{}
+	for _, g := range Groups(tier) {
+		switch g.Kind {
+		case "call":
+			perFn["fn:"+g.Name] += int64(g.Size(tier))
+		case "form":
+			perFn["form:"+g.Name] += int64(g.Size(tier))
+		case "chars":
+			templates += int64(g.Size(tier))
+		case "tokens":
+			if !g.Danger {
+				templates += int64(g.Size(tier)) // danger strings are the complement inside the same index space
+			}
+		case "stress":
+			templates += int64(g.Size(tier))
+		}
+	}
+	return
+}
+
+func guards(r *mc.Result, tier string) []string {
+	var f []string
+	perFn, templates := expectedCounts(tier)
+	names := make([]string, 0, len(perFn))
+	for k := range perFn {
+		names = append(names, k)
+	}
+	sort.Strings(names)
+	runaway := r.Counters["runaway_cases_confirmed_at_the_full_limit"] + r.Counters["runaway_cases_in_an_already_confirmed_class"] + r.Counters["fatal_cases"]
+	var missing int64
+	for _, k := range names {
+		if got := r.Counters[k]; got > perFn[k] {
+			f = append(f, fmt.Sprintf("%s executed %d times, more than the %d enumerated", k, got, perFn[k]))
+		} else {
+			missing += perFn[k] - got
+			if got == 0 {
+				f = append(f, fmt.Sprintf("%s was never called", k))
+			}
+		}
+	}
+	// a call that ran away is not counted by the child that died: the only calls allowed to be missing
+	if missing > runaway {
+		f = append(f, fmt.Sprintf("%d enumerated calls were not executed (only %d are accounted for as runaway cases)", missing, runaway))
+	}
+	if got := r.Counters["templates"]; got > templates || templates-got > runaway {
+		f = append(f, fmt.Sprintf("templates evaluated %d, enumerated %d", got, templates))
+	}
+	if len(FunctionNames()) < 100 {
+		f = append(f, fmt.Sprintf("only %d registered functions found", len(FunctionNames())))
+	}
+	for _, v := range Alphabet {
+		if r.Facts["val:"+v.Label] == 0 {
+			f = append(f, "alphabet value never used: "+v.Label)
+		}
+	}
+	for _, v := range XExp {
+		if tier == "thorough" || v.Label == "j:1e999999999" {
+			if r.Facts["val:"+v.Label] == 0 && runaway == 0 {
+				f = append(f, "alphabet value never used: "+v.Label)
+			}
+		}
+	}
+	for _, form := range Forms {
+		if r.Counters["ok:form:"+form.Expr] == 0 {
+			f = append(f, "form never produced a non-error value: "+form.Expr)
+		}
+	}
+	for _, fact := range []string{
+		"template_ok_via:Evaluator.Template", "template_error_via:Evaluator.Template",
+		"template_ok_via:Evaluator.TemplateValue", "template_error_via:Evaluator.TemplateValue",
+		"template_ok_via:run.EvaluateTemplate", "template_error_via:run.EvaluateTemplate",
+		"template_ok_via:run.EvaluateTemplateValue", "template_error_via:run.EvaluateTemplateValue",
+		"template_ok_via:run.EvaluateTemplateText", "template_error_via:run.EvaluateTemplateText",
+		"group:call", "group:form", "group:xexp", "group:chars", "group:tokens", "group:stress",
+	} {
+		if r.Facts[fact] == 0 {
+			f = append(f, "never observed: "+fact)
+		}
+	}
+	for _, o := range []string{"call:error", "call:arity-error", "call:text", "call:number", "call:object", "call:array", "call:null", "form:number", "form:boolean", "form:error"} {
+		if r.Outcomes[o] == 0 {
+			f = append(f, "outcome never observed: "+o)
+		}
+	}
+	return f
+}
+
+// runIsolated executes one case alone in a fresh child under the full limit of the tier and returns a
+// description and whether the property was violated.
+func runIsolated(tier string, cs Case) (string, bool) {
+	r := confirmCase(tier, Group{}, cs, limitsOf(tier).full)
+	if r.err != nil {
+		return "harness: " + r.err.Error(), false
+	}
+	if r.fail != nil {
+		return fmt.Sprintf("case %s\n%s: %s", mc.JSON(cs), r.fail.kind, trimTo(r.fail.detail, 1500)), true
+	}
+	outcomes := map[string]int64{}
+	var viols []*viol
+	for _, d := range r.deltas {
+		viols = append(viols, d.Viol...)
+		for k, v := range d.Outcomes {
+			outcomes[k] += v
+		}
+	}
+	desc := fmt.Sprintf("case %s\noutcomes %v (%.2f s of CPU)", mc.JSON(cs), outcomes, r.used.Seconds())
+	for _, v := range viols {
+		desc += fmt.Sprintf("\nPROBLEM %s: %s", v.Key, v.What)
+	}
+	return desc, len(viols) > 0
+}
+
+func parseRisky(raw []byte) (Case, error) {
+	var doc struct {
+		Risky string `json:"risky"`
+	}
+	var cs Case
+	if err := json.Unmarshal(raw, &doc); err != nil || doc.Risky == "" {
+		return cs, fmt.Errorf("bad replay artefact")
+	}
+	if err := json.Unmarshal([]byte(doc.Risky), &cs); err != nil {
+		return cs, fmt.Errorf("bad case: %v", err)
+	}
+	return cs, nil
+}
+
+func replayFn(c *mc.Ctx, raw json.RawMessage) (string, bool) {
+	cs, err := parseRisky(raw)
+	if err != nil {
+		return err.Error(), false
+	}
+	tier := c.Tier
+	if os.Getenv("VERIF_TIER") == "" {
+		tier = "thorough" // a replay judges by the 60 s limit
+	}
+	return runIsolated(tier, cs)
+}
+
+// single serves two purposes: "@serve:<shm>" turns the process into a case server (see child.go);
+// anything else is a case description to execute alone (the driver's crash confirmation).
+func single(c *mc.Ctx, desc string) string {
+	if strings.HasPrefix(desc, servePrefix) {
+		return serve(c.Tier, strings.TrimPrefix(desc, servePrefix))
+	}
+	var cs Case
+	if err := json.Unmarshal([]byte(desc), &cs); err != nil {
+		return "bad case: " + err.Error()
+	}
+	out, violated := runIsolated(c.Tier, cs)
+	if violated {
+		fmt.Println(out)
+		os.Exit(1)
+	}
+	return out
+}
+
+func classify(desc, output string, hang bool) (string, string) {
+	// only reached if the orchestrating worker itself dies, which no case can cause
+	return "harness:worker:" + mc.Hash(desc), "the orchestrating worker died: " + output
+}
+
+func init() {
+	mc.Register(&mc.Check{
+		ID:    "C04",
+		Level: "exploration",
+		Rule: "exhaustive enumeration on the real implementation: (i) every function of functions.XFUNCTIONS and test of cases.XTESTS (registries read at run time) called through XFunction.Call at every arity 0..5 under 2 environments with every tuple of the boundary alphabet (44 values at arity <= 3; quick: a 12-value core at arity 4 and 6 values at arity 5; thorough: all 44 at arity 4, the core at arity 5), each result also rendered as text and JSON; " +
+			"(ii) every operator, lookup and call form of the expression tree on every pair of alphabet values through Evaluator.Expression; (iii) every template string of length <= 6 (thorough 7) over a 12-symbol alphabet, every string of <= 4 tokens over a 31-token vocabulary, and 22 generated families of deep/long templates (<= 400 bytes), each through Evaluator.Template (with and without escaping), TemplateValue and run.EvaluateTemplate / EvaluateTemplateValue / EvaluateTemplateText of a real waiting run; " +
+			"(iv) a webhook-JSON number with a huge exponent as argument of every function and form. Every case runs in an isolated child process under a 4 GiB address-space cap and a CPU-time limit (20 s quick / 60 s thorough). " +
+			"distinct_nontrivial counts calls not rejected by the argument-count wrapper, form evaluations, and templates that contain at least one expression or identifier.",
+		Assumptions: []string{
+			"small-scope: argument tuples come from the stated boundary alphabet, strings from the stated alphabets and lengths",
+			"a case (<= 400 bytes of input) that burns more than the CPU limit without returning is a hang; one that exhausts the 4 GiB cap is a crash of the host; CPU time, not wall-clock, is measured so that load from other jobs does not change verdicts",
+			"once a runaway class (function x argument-position class) is confirmed at the full limit, further cases of the same class get 0.5 s and are only counted under that class",
+			"clock, UUID and random sources are owned by the harness (random draws fixed at the bottom / top of the range per environment)",
+		},
+		Run:         run,
+		Replay:      replayFn,
+		Guards:      guards,
+		Single:      single,
+		Classify:    classify,
+		HangLimit:   10 * time.Minute,
+		SingleLimit: 5 * time.Minute,
+		Budget:      map[string]time.Duration{"quick": 6 * time.Minute, "thorough": 40 * time.Minute},
+	})
+}
